@@ -1,7 +1,10 @@
 from propkit import job
 
 D = "harness/core/internal/congestion/bbr/"
-FILES = [D + "c12_mon_test.go", D + "c12_sim_test.go", D + "c12_quic_test.go"]
+# Go >= 1.24 turns math/rand.Seed into a no-op unless randseednop=0; bbr_sender.go draws its PROBE_BW gain-cycle
+# offset from math/rand's global source, and the harness seeds that source per case to make every case reproducible.
+ENV = {"GODEBUG": "randseednop=0"}
+FILES = [D + "c12_mon_test.go", D + "c12_sim_test.go", D + "c12_quic_test.go", D + "c12_resume_test.go"]
 
 PROP = {
     "level": "exploration",
@@ -11,11 +14,11 @@ PROP = {
     "parallel": 2,
     "jobs": [
         job("traces", "core", "./internal/congestion/bbr/", "bbr", FILES, "^TestVerifC12Traces$",
-            ["bbr-traces"], race=False, timeout_quick=900, timeout_thorough=5400),
-        job("progress", "core", "./internal/congestion/bbr/", "bbr", FILES, "^TestVerifC12Progress$",
-            ["bbr-progress"], race=False, timeout_quick=900, timeout_thorough=5400),
+            ["bbr-traces"], race=False, timeout_quick=900, timeout_thorough=5400, env=ENV),
+        job("progress", "core", "./internal/congestion/bbr/", "bbr", FILES, "^TestVerifC12(Progress|Resume)$",
+            ["bbr-progress", "bbr-resume"], race=False, timeout_quick=900, timeout_thorough=5400, env=ENV),
         job("quic", "core", "./internal/congestion/bbr/", "bbr", FILES, "^TestVerifC12RealQUIC$",
-            ["bbr-real-quic"], race=False, timeout_quick=900, timeout_thorough=5400),
+            ["bbr-real-quic"], race=False, timeout_quick=900, timeout_thorough=5400, env=ENV),
     ],
     "min_events": 100000,
     "rule": ("traces: PRNG traces stratified over 12 kinds x 3 profiles (conservative/standard/aggressive): capacity "
@@ -30,6 +33,11 @@ PROP = {
              "progress: loss-free fixed-capacity links x 3 profiles (WAN links 1..500 Mbit/s x 5..300 ms for 20 virtual seconds; "
              "short-RTT fast paths 1..10 Gbit/s x 0.1..1.9 ms, BDP >> initial window, for 0.2..0.8 virtual seconds), queue >= BDP, second-half goodput "
              "vs capacity and quiescence-with-data (deadlock) check; runs with a queue drop are excluded and counted. "
+             "resume: the same loss-free links with a scripted application: bulk -> application-limited at 2/4/20 % of capacity "
+             "for 3/12/40 round trips -> bulk (A), application-limited from the first packet -> bulk (B), on/off bursts -> bulk (C); "
+             "delivered rate over max(1 s, 25 RTT) after the application became bulk again must reach 50 % of capacity (A, C; "
+             "clean tree 86..98 %) resp. at least the rate the application offered before (B; the clean tree itself converges "
+             "slowly there, 15..93 %, ratios recorded). "
              "real-quic: real quic-go server->client bulk transfers (3 profiles x (3 links + one 2.2 s-RTT link), plus lossy/reordering/shallow-"
              "queue routers in thorough) with the monitor installed by SetCongestionControl after Accept. After every "
              "callback: no panic, 4*MTU <= cwnd <= maxWindow*MTU, pacer bandwidth >= 65536 B/s, sampler queue keeps nothing "
@@ -37,7 +45,7 @@ PROP = {
              "in-flight packet is the one stored for it; pacing gate: HasPacingBudget=false => TimeUntilSend() non-zero and strictly "
              "after now, and at an announced deadline with nothing in between HasPacingBudget is true; all outputs are also "
              "checked at installation, before the first packet. Non-trivial = trace reached PROBE_BW with >= 50 congestion events "
-             "(traces), asserted loss-free run (progress), completed transfer with >= 500 monitored callbacks (real-quic); "
+             "(traces), asserted loss-free run (progress, resume), completed transfer with >= 500 monitored callbacks (real-quic); "
              "distinct = distinct parameter set."),
     "assumptions": [
         "QUIC-consistent = what quic-go's sentPacketHandler can emit for the application-data packet number space after "
